@@ -161,11 +161,14 @@ func Prepend(asn uint32, n uint16) filter.Chain {
 
 // Family is the per address family configuration of a peer.
 type Family struct {
-	AddPathRecv bool         // bio-rd accepts path identifiers from the peer
-	AddPathSend bool         // bio-rd sends up to MaxPaths paths per prefix with path identifiers
-	MaxPaths    uint         // default 8 when AddPathSend
-	Import      filter.Chain // nil: accept all (bio-rd's own default for an empty chain is reject all)
-	Export      filter.Chain // nil: accept all
+	AddPathRecv bool // bio-rd accepts path identifiers from the peer
+	AddPathSend bool // bio-rd sends up to MaxPaths paths per prefix with path identifiers
+	MaxPaths    uint // default 8 when AddPathSend
+	// NextHopExtended (IPv4 only): bio-rd advertises the extended next hop encoding capability (RFC 8950) and,
+	// with it, the multiprotocol capability for IPv4 unicast
+	NextHopExtended bool
+	Import          filter.Chain // nil: accept all (bio-rd's own default for an empty chain is reject all)
+	Export          filter.Chain // nil: accept all
 }
 
 // PeerConfig describes a peer of the server. The zero value of most fields is a sensible default.
@@ -214,6 +217,7 @@ func famCfg(f *Family) *server.AddressFamilyConfig {
 		ExportFilterChain: chainOr(f.Export),
 		AddPathRecv:       f.AddPathRecv,
 		AddPathSend:       routingtable.ClientOptions{BestOnly: true},
+		NextHopExtended:   f.NextHopExtended,
 	}
 	if f.AddPathSend {
 		mp := f.MaxPaths
